@@ -152,6 +152,12 @@ def labelled():
             for lim in ('', ' limit 1', ' limit 2', ' limit 3', ' limit 100'):
                 out.append((['name, %s from . order by 2%s%s' % (key, tail, lim)], 'nan-sort-key', None))
                 out.append((['name from . order by %s%s, name%s' % (key, tail, lim)], 'nan-sort-key', None))
+    # arithmetic between totals, the divisor total being 0 (no entry has a value, or the values add up to nothing)
+    for a in ('sum(size)', 'count(*)', 'max(size)', 'avg(size)', 'sum(size - size)', 'sum(line_count)'):
+        for b_ in ('sum(width)', 'sum(line_count)', 'count(width)', 'sum(size - size)', 'sum(0)', 'min(size - size)', 'count(*) - count(*)', 'sum(hardlinks) - sum(hardlinks)'):
+            for opx in ('/', '%', 'div', 'mod'):
+                for tail in (' from .', ' from . where is_dir = true', ' from . group by is_dir', ' from . where size gt 99999999999', ' from . group by ext order by 1'):
+                    out.append((['%s %s %s%s' % (a, opx, b_, tail)], 'zero-total-divisor', None))
     # very long and very deep input: an answer (of any kind) in time, no crash
     N = 20000
     for qy in ('name from . where ' + '(' * N + 'size > 1' + ')' * N, 'name from . where ' + '(' * N + 'size > 1', 'name from . where ' + '{' * N + 'size > 1' + '}' * N,
